@@ -48,6 +48,10 @@ pub trait Tap: Send + Sync {
     }
     /// A compression was requested
     fn deflate(&self, _deflater: Deflaters, _data: &[u8], _max_size: Option<usize>) {}
+    /// A decompression was requested
+    fn inflate(&self, _data: &[u8], _out_size: usize) {}
+    /// `PngImage::filter_image` produced `filtered`
+    fn filtered(&self, _image: &PngImage, _filter: RowFilter, _optimize_alpha: bool, _filtered: &[u8]) {}
     /// An evaluator was created
     fn evaluator(&self, _eval: usize, _filters: &[RowFilter], _deflater: Deflaters, _final_round: bool) {}
     /// An evaluator's initial bound was set
